@@ -13,15 +13,22 @@ EXTRA = ["#  a\n#  b\n#  c\n#  d\n", "a   \nb   \nc   \nd   \n", "<!-- pyml disa
          "<!-- pyml disable-next-line md041-->\ntext\n", "text\n"]
 
 
+# a second configuration that switches on the rule options which make rules remember more between headings / lists
+OPTIONS = ["--set", "plugins.md024.siblings_only=$!True", "--set", "plugins.md004.style=sublist", "--set", "plugins.md003.style=consistent", "-e", "md002", "-e", "md043"]
+EXTRA2 = ["# t\n\n## Linux\n\n### Setup\n\n## Windows\n\n### Setup\n", "## Windows\n\n### Setup\n", "## Intro\n\n# Intro\n", "### Setup\n", "+ a\n  - b\n    * c\n", "- a\n  + b\n", "* a\n",
+          "Title\n=====\n\nSub\n---\n\n### Setup\n", "# t\n\n## Windows\n"]
+
+
 def _run(case):
-    docs, mode = case
+    docs, mode = case[0], case[1]
+    cfg = OPTIONS if len(case) > 2 and case[2] else []
     with Scratch("pv-c13-") as d:
         names = []
         for i, t in enumerate(docs, 1):
             n = f"f{i}.md"
             open(os.path.join(d, n), "wb").write(t.encode("utf-8"))
             names.append(n)
-        code, out, err = impl.run_cli([mode] + names, cwd=d)
+        code, out, err = impl.run_cli(cfg + [mode] + names, cwd=d)
         after = [open(os.path.join(d, n), "rb").read().decode("utf-8") for n in names]
     per = {n: [l for l in out.split("\n") if l.startswith(n + ":") or l == f"Fixed: {n}"] for n in names}
     perr = {n: [l for l in err.split("\n") if l.startswith(n + ":")] for n in names}
@@ -29,10 +36,11 @@ def _run(case):
 
 
 def _alone(case):
-    doc, mode, name = case
+    doc, mode, name = case[0], case[1], case[2]
+    cfg = OPTIONS if len(case) > 3 and case[3] else []
     with Scratch("pv-c13a-") as d:
         open(os.path.join(d, name), "wb").write(doc.encode("utf-8"))
-        code, out, err = impl.run_cli([mode, name], cwd=d)
+        code, out, err = impl.run_cli(cfg + [mode, name], cwd=d)
         after = open(os.path.join(d, name), "rb").read().decode("utf-8")
     return code, [l for l in out.split("\n") if l.startswith(name + ":") or l == f"Fixed: {name}"], [l for l in err.split("\n") if l.startswith(name + ":")], after, bool(err.strip()) and "INLINE" not in err
 
@@ -61,26 +69,31 @@ def run(ctx):
         pool = EXTRA + gen.sample([d for d in pool if d not in EXTRA], 14, ctx.seed)
     modes = ("scan", "fix")
     alone = {}
+    pool2 = EXTRA2 + EXTRA[:8]
     acases = [(d, m, n) for d in pool for m in modes for n in ("f1.md", "f2.md", "f3.md")]
+    acases += [(d, m, n, True) for d in pool2 for m in modes for n in ("f1.md", "f2.md")]
     for c, r in zip(acases, impl.pmap(_alone, acases, chunksize=16)):
         alone[c] = r
     pairs = list(itertools.permutations(pool, 2)) + [(d, d) for d in pool]
     rng = core.random.Random(ctx.seed + 9)
     triples = [tuple(rng.choice(pool) for _ in range(3)) for _ in range(150 if ctx.tier == "quick" else 1500)]
     cases = [(h, m) for h in pairs + triples for m in modes]
+    cases += [(h, m, True) for h in list(itertools.permutations(pool2, 2)) for m in modes]
     res = impl.pmap(_run, cases, chunksize=16)
-    for (h, mode), (code, per, perr, after, generic_err) in zip(cases, res):
-        ctx.count(1, f"{mode}/files{len(h)}")
+    for case, (code, per, perr, after, generic_err) in zip(cases, res):
+        h, mode = case[0], case[1]
+        opt = len(case) > 2
+        ctx.count(1, f"{mode}/files{len(h)}" + ("/options" if opt else ""))
         ctx.seen([list(h), mode])
         # a file on which the run stops (application error) ends the comparison there: C15's business
         for i, d in enumerate(h, 1):
             n = f"f{i}.md"
-            a = alone[(d, mode, n)]
+            a = alone[(d, mode, n, True) if opt else (d, mode, n)]
             if a[4]:
                 break               # this file alone already ends in an application error
             if (per[n], perr[n], after[i - 1]) != (a[1], a[2], a[3]):
                 what = "output" if per[n] != a[1] else "pragma errors" if perr[n] != a[2] else "content"
-                ctx.violation("history", {"before": list(h[:i - 1]), "doc": d, "mode": mode},
+                ctx.violation("history", dict({"before": list(h[:i - 1]), "doc": d, "mode": mode}, **({"options": OPTIONS} if opt else {})),
                               f"{what} for the file differs from processing it alone: {per[n][:3] if what != 'content' else after[i-1]!r} vs {a[1][:3] if what != 'content' else a[3]!r}",
                               group="history-" + mode + "-" + what.replace(" ", "-"))
                 break
@@ -97,7 +110,7 @@ def run(ctx):
     ]
     return ctx.finish(
         level="proof",
-        rule=f"pool of {len(pool)} documents (15 chosen for dense failures, pragmas, link definitions, list/heading state + the shared pool); all ordered pairs incl. a document with itself, random triples; scan and fix; quick = 29-document pool; non-trivial = every history; distinct by (history, mode)",
+        rule=f"pool of {len(pool)} documents (15 chosen for dense failures, pragmas, link definitions, list/heading state + the shared pool); all ordered pairs incl. a document with itself, random triples; scan and fix; all ordered pairs of a 17-document pool under a second configuration (md024 siblings_only, md004 sublist, md002 and md043 enabled); quick = 29-document pool; non-trivial = every history; distinct by (history, mode)",
         assumptions=["the comparison of a history stops at the first file that ends the run with an application error (C15)",
                      "the eight reviewed unreset fields and everything the syntactic field analysis cannot see are covered by the histories only"],
     )
